@@ -254,7 +254,16 @@ Requests(doc) ==
        \* a scheme variable at each of its values, and at one outside its enum
        schv == UNION {UNION {{[m |-> t.ops[1].m, u |-> [Under(sv, BaseFill(t)) EXCEPT !.scheme = sc]] :
                                 sc \in SchemeSet(sv) \cup {"ftp"}} : sv \in {x \in AllServers(doc) : HasSchemeVar(x)}} : t \in T}
-   IN {r \in main \cup odd \cup srv \cup tails \cup encv \cup altv \cup schv : WellFormed(r)}
+       \* the same request URLs in server form (Request.Host + Request.TLS + path-only URL): every template's base fill
+       \* under every declared server, the URLs that miss or vary the server, the values of a scheme variable,
+       \* one tail -- wherever the URL is absolute with a scheme a server can be reached by
+       sform == {[m |-> r.m, u |-> [form |-> "server"] @@ r.u] :
+                   r \in {x \in srv \cup schv \cup altv
+                                \cup UNION {{[m |-> t.ops[1].m, u |-> Under(sv, BaseFill(t))] : sv \in AllServers(doc)} : t \in T}
+                                \cup UNION {{[m |-> t.ops[1].m, u |-> WithTail(Under(S[1], BaseFill(t)), "?a=1#top")]} : t \in T} :
+                             /\ x.u.abs /\ x.u.scheme \in {"http", "https"}
+                             /\ Len(x.u.path) > 0 /\ (x.u.path[1] # "" \/ Len(x.u.path) = 1)}}     \* (the path alone must parse as a path)
+   IN {r \in main \cup odd \cup srv \cup tails \cup encv \cup altv \cup schv \cup sform : WellFormed(r)}
 
 (* The order the requests of a document are run in (one router instance per chunk of     *)
 (* this sequence): first the main URLs, each with GET and then POST back to back -- so    *)
